@@ -846,6 +846,7 @@ func checkC02(c *Ctx) {
 	// the footer's leaves: physical/converted type per Go type, the leaf's own repetition
 	checkTypeFuncs(c)
 	laMaxLevels(c, "LA-maxlevels")
+	laLeafKind(c, "LA-leafkind")
 	// schema inputs over the corpus
 	res, desc, exhaustive := runCorpusFor(c, false)
 	if res != nil {
